@@ -79,3 +79,10 @@ Proof. vm_compute. repeat split; reflexivity. Qed.
    replaced by SetCloseDeadline while Serve runs is never looked at again *)
 Lemma tbl_serve_loop : sv_serve_eof_identity = true /\ sc_serve_reads_context_every_turn = true.
 Proof. vm_compute. split; reflexivity. Qed.
+
+(* closeSession: the bit is tested and set in one critical section of the state
+   mutex that ends before the closing element is written (OMark, then
+   OWriteTag): closing is final even when the connection refuses the write, and
+   there is never a second write attempt *)
+Lemma tbl_closesession_order : sc_closesession_sets_bit_before_write = true.
+Proof. vm_compute. reflexivity. Qed.
